@@ -30,7 +30,7 @@ def run(P, rep, tier):
 
     r1 = rep.rule('C04-R1', 'reader: for every container history the encoding used for each preamble/meta section is its '
                   'own, else the nearest enclosing declaring container\'s; diff sections get their own or none', reference=1134)
-    RK = k1.ReaderK1(P, R, table)
+    RK = k1.ReaderK1(P, R, table, max_depth=14 if tier == 'quick' else 20)
     RK.capture_templates()
 
     def rsucc(seq):
